@@ -5,6 +5,7 @@ import (
 	"encoding/json"
 	"fmt"
 	"sort"
+	"strconv"
 	"strings"
 	"sync"
 	"sync/atomic"
@@ -940,6 +941,22 @@ func TestProp(t *testing.T) {
 			s.Report(t, f)
 		})
 
+	run.Check("churn", 60, 600,
+		"Length under churn: 2·K keys stored (K in 1..256), optionally promoted by a Range, the first K deleted; one writer then alternates Store(new key) / Delete(oldest key) for 2000..20000 rounds (K or K+1 live keys at every instant) while the reader calls Length 2000..20000 times; linearizable = every result is K or K+1; non-trivial = at least one Length call overlapped a write; distinct by plan",
+		func(t *rapid.T, s *rt.Section) {
+			c := ChurnCase{Keys: rapid.SampledFrom([]int{1, 2, 3, 8, 64, 256}).Draw(t, "keys"), Rounds: rapid.SampledFrom([]int{2000, 20000}).Draw(t, "rounds"),
+				Reads: rapid.SampledFrom([]int{2000, 20000}).Draw(t, "reads"), Promote: rapid.Bool().Draw(t, "promote")}
+			s.Eval()
+			f, overlapped := checkChurn(c, s)
+			b, _ := json.Marshal(c)
+			h := rt.HashBytes(b)
+			if overlapped > 0 {
+				s.NonTrivial(h)
+			}
+			s.Sample(h, c)
+			s.Report(t, f)
+		})
+
 	run.Check("stress", 400, 6000,
 		"long single-writer histories under the race detector: 2..4 writer goroutines cycle a drawn pattern of Store/Delete/Load/LoadOrStore/LoadAndDelete over their own 1..4 keys for 200..4000 operations while a disturber goroutine forces dirty-map rebuilds and promotions (fresh-key Store + Range/Length + Delete); invariants: every key read by its only writer holds that writer's last write, final contents = union of the writers' last states, quiescent Length; non-trivial = pattern contains a delete followed later by a store; distinct by plan",
 		func(t *rapid.T, s *rt.Section) {
@@ -975,8 +992,8 @@ func TestProp(t *testing.T) {
 
 type StressCase struct {
 	Writers int   `json:"writers"`
-	Keys    int   `json:"keys"`   // keys per writer
-	Rounds  int   `json:"rounds"` // operations per writer
+	Keys    int   `json:"keys"`    // keys per writer
+	Rounds  int   `json:"rounds"`  // operations per writer
 	Pattern []int `json:"pattern"` // op codes cycled by every writer: 0 Store 1 Delete 2 Load 3 LoadOrStore 4 LoadAndDelete
 	Disturb int   `json:"disturb"` // 0 fresh-key store+range+delete, 1 store+length, 2 range only
 }
@@ -1133,6 +1150,82 @@ func bucket(n int) int {
 	return 1000
 }
 
+// ---------------------------------------------------------------------------
+// churn: Length while one goroutine keeps the number of live keys between two known values.  The statement asks for
+// linearizable executions of every listed call, Length included: a linearizable Length returns the number of live keys
+// at some instant of the call, and with one writer that alternates "store a new key" / "delete the oldest key" that
+// number is Keys or Keys+1 at every instant.
+
+type ChurnCase struct {
+	Keys    int  `json:"keys"`    // live keys before the churn (as many deleted ones lie before them)
+	Rounds  int  `json:"rounds"`  // store-new / delete-oldest rounds of the writer
+	Reads   int  `json:"reads"`   // Length calls of the reader
+	Promote bool `json:"promote"` // a Range before the churn moves every key into the read-only part
+}
+
+func checkChurn(c ChurnCase, s *rt.Section) (*rt.Failure, int) {
+	if c.Keys < 1 || c.Keys > 4096 || c.Rounds < 1 || c.Reads < 1 {
+		return s.NewFailure("replay", "replay:bad-case", c, "bad churn case", ""), 0
+	}
+	m := &ds.ValueMap{}
+	key := func(i int) string { return "k" + strconv.Itoa(i) }
+	for i := 0; i < 2*c.Keys; i++ {
+		m.Store(key(i), val(i))
+	}
+	if c.Promote {
+		m.Range(func(string, *ds.VMValue) bool { return true })
+	}
+	for i := 0; i < c.Keys; i++ {
+		m.Delete(key(i))
+	}
+	if n := m.Length(); n != c.Keys {
+		return s.NewFailure("model", "model:Length", c, fmt.Sprintf("quiescent Length()=%d", n), fmt.Sprintf("%d live keys", c.Keys)), 0
+	}
+	var wg sync.WaitGroup
+	var done atomic.Int64
+	stop := make(chan struct{})
+	wg.Add(1)
+	go func() {
+		defer wg.Done()
+		oldest, next := c.Keys, 2*c.Keys
+		for r := 0; r < c.Rounds; r++ {
+			select {
+			case <-stop:
+				return
+			default:
+			}
+			m.Store(key(next), val(next))
+			next++
+			m.Delete(key(oldest))
+			oldest++
+			done.Add(1)
+		}
+	}()
+	lo, hi := c.Keys, c.Keys
+	overlapped := 0
+	for i := 0; i < c.Reads; i++ {
+		before := done.Load()
+		n := m.Length()
+		if done.Load() != before {
+			overlapped++
+		}
+		if n < lo {
+			lo = n
+		}
+		if n > hi {
+			hi = n
+		}
+	}
+	close(stop)
+	wg.Wait()
+	if lo < c.Keys || hi > c.Keys+1 {
+		return s.NewFailure("linearizable", "conc:length-not-atomic", c,
+			fmt.Sprintf("Length() returned values from %d to %d while the map held %d or %d live keys at every instant (%d of %d calls overlapped a write)", lo, hi, c.Keys, c.Keys+1, overlapped, c.Reads),
+			fmt.Sprintf("every Length() in [%d, %d]", c.Keys, c.Keys+1)), overlapped
+	}
+	return nil, overlapped
+}
+
 func TestReplay(t *testing.T) {
 	seq := func(b []byte, s *rt.Section) *rt.Failure {
 		var c Case
@@ -1157,6 +1250,18 @@ func TestReplay(t *testing.T) {
 			}
 			for i := 0; i < 30; i++ {
 				if f := checkStress(c, s); f != nil {
+					return f
+				}
+			}
+			return nil
+		},
+		"churn": func(b []byte, s *rt.Section) *rt.Failure {
+			var c ChurnCase
+			if err := json.Unmarshal(b, &c); err != nil {
+				return s.NewFailure("replay", "replay:bad-case", nil, err.Error(), "")
+			}
+			for i := 0; i < 20; i++ {
+				if f, _ := checkChurn(c, s); f != nil {
 					return f
 				}
 			}
